@@ -72,6 +72,16 @@ Lemma tf_run_zset dec argv : tfree T (run_zset dec argv).
 Proof. unfold run_zset, run_single, run_multi. tf; intros; apply tf_run_act. Qed.
 Lemma tf_zset name h argv : zset_handler name = Some h -> tfree T (h argv).
 Proof. unfold zset_handler. chain_cases ltac:(apply tf_run_zset). Qed.
+(** ZRANDMEMBER (any selection function) and RANDOMKEY / TOUCH / OBJECTFREQ / OBJECTIDLETIME (any random
+    source): no use of the clock value; TOUCH, the one of them that is replicated, runs no primitive. *)
+Lemma tf_zrand pick name h argv : CmdZRand.zrand_handler pick name = Some h -> tfree T (h argv).
+Proof. unfold CmdZRand.zrand_handler. destruct (String.eqb _ _); [|done]. intros [= <-]. apply tf_run_zset. Qed.
+Lemma tf_keyspace cands name h argv : CmdKeyspace.keyspace_handler cands name = Some h -> tfree T (h argv).
+Proof.
+  unfold CmdKeyspace.keyspace_handler. chain_cases ltac:(idtac).
+  all: unfold CmdKeyspace.handle_randomkey, CmdKeyspace.handle_touch, CmdKeyspace.handle_objfreq,
+         CmdKeyspace.handle_objidletime; tf.
+Qed.
 
 (** generic module: everything but SET, GETEX, EXPIRE, PEXPIRE, EXPIREAT, PEXPIREAT, TTL, PTTL *)
 Lemma tf_del_keys ks ex n : tfree T (del_keys ks ex n).
